@@ -264,6 +264,9 @@ def run(chk) -> None:
                instance=f"accounting:bookkeeping-scope:{'retry' if same else ast.unparse(sn) if sn is not None else 'other'}",
                reason=f"CommandQueueEvent(event={ast.unparse(ev) if ev is not None else None}, step_name={ast.unparse(sn) if sn is not None else None}) carries {carried} of the failed execution: "
                       f"the receiving step starts with another step's attempt count, first-attempt time and last exception (retry_info(), stop conditions and the failure report count from there)")
+    # bookkeeping survives the conversions between queued and in-progress records (start from the queue, re-queue at resume)
+    from ._engine import conversion_completeness
+    chk.floor("C05.R2", "conversions between EventAttempt and InProgressState in the reducer module", conversion_completeness(chk, "C05.R2"), 2)
     # delay None when no policy
     _, add = repo.func(f"{CL}:_add_or_enqueue_event")
     ips = [c for c in ast.walk(add) if isinstance(c, ast.Call) and last(call_name(c)) == "InProgressState"]
@@ -377,6 +380,8 @@ _SF = "packages/llama-index-workflows/src/workflows/runtime/types/step_function.
 _IC = "packages/llama-index-workflows/src/workflows/context/internal_context.py"
 _RP = "packages/llama-index-workflows/src/workflows/retry_policy.py"
 TWINS = [
+    Twin("resume re-queues the interrupted execution without its first-attempt time", _P, "                    attempts=in_progress.attempts,\n                    first_attempt_at=in_progress.first_attempt_at,\n", "                    attempts=in_progress.attempts,\n", "C05.R2"),
+    Twin("an event starting from the queue loses its last failure time", _P, "                last_failed_at=event.last_failed_at,\n", "", "C05.R2"),
     Twin("handler execution inherits the failed step's bookkeeping", _P, "                            event=step_failed_event,\n                            step_name=handler.step_name,\n", "                            event=step_failed_event,\n                            step_name=handler.step_name,\n                            attempts=this_execution.attempts + 1,\n                            first_attempt_at=this_execution.first_attempt_at,\n", "C05.R2"),
     Twin("step stamps monotonic", _SF, "StepWorkerFailed(exception=e, failed_at=time.time())", "StepWorkerFailed(exception=e, failed_at=time.monotonic())", "C05.R1"),
     Twin("retry_info monotonic", _IC, "elapsed = max(0.0, time.time() - retry.first_attempt_at)", "elapsed = max(0.0, time.monotonic() - retry.first_attempt_at)", "C05.R1"),
